@@ -16,11 +16,11 @@ ROUND5 = {
  "C05": "One fault-free case in sixteen is a long history (90..210 messages per sender). l2_big draws frames of 1 MiB and more.",
  "C08": "rejoin_reply: the reply goes to the connection the request came from, also after the requester rejoined under its identity. A third of the disturbed call sequences put a frame of 0, 256, 300 or 9000 bytes in front of the last frame of requests and replies.",
  "C09": "router_abandoned_send: a routed send under back-pressure is dropped after k polls; the peer stays addressable. Departing peers may only shut down their sending direction (judged for consistency); rejoin_during_blocked_send: the target's peer joins again under its identity while a routed send to it is blocked.",
- "C10": "The departure phase includes REQ; the bytes of each send on the chosen connection are compared with the exact encoding. One message in four ends in one or two empty frames; the bytes of sends made while a departure is being observed are compared too.",
+ "C10": "The departure phase includes REQ; the bytes of each send on the chosen connection are compared with the exact encoding. One message in four ends in one or two empty frames; the bytes of sends made while a departure is being observed are compared too. Peers announce nothing, a present-but-empty identity or distinct identities.",
  "C12": "In half of the runs every subscriber holds several overlapping subscriptions. recovery: one of two subscribers stalls while 1030..1430 small messages are published, catches up, and must receive what is published afterwards.",
  "C14": "l1_takeover: the fair-queue component simulation with the receiving end changing hands; long histories with recv calls abandoned all the way through. rep_owed_reply_one_recv_rejoin / rep_owed_reply_after_rejoin: the owed reply after the requester left and rejoined under its identity, with a further recv abandoned.",
- "C16": "Half of the PUB/XPUB cells publish 70 kB messages right after the fault without reading first (the send path has to find the dead subscriber).",
- "C17": "SUB cells with 180 kB of subscriptions whose replay to a non-reading peer is blocked at close/drop. In one disturbed case in four an accept() on every bound endpoint failed some time before the teardown.",
+ "C16": "Half of the PUB/XPUB cells publish 70 kB messages right after the fault without reading first (the send path has to find the dead subscriber). In the cut worlds a SUB socket subscribes right after the fault and once more at the end; every healthy bystander must have been sent both.",
+ "C17": "SUB cells with 180 kB of subscriptions whose replay to a non-reading peer is blocked at close/drop. In one disturbed case in four an accept() on every bound endpoint failed some time before the teardown. A third of the disturbed connected-out cells abandon the connect call in its handshake, another third in its retry loop (a listener appears there after the teardown and must not be connected to).",
  "C18": "The operation 'the next accept() fails' (ECONNABORTED, uncategorised, ENOMEM, EINTR) is part of the sequences. The operation TimePasses moves the virtual clock by 1 s .. 25 h between operations; accept failures are injected on IPC endpoints too.",
  "C20": "A staller may abort (RST) while still in the accept backlog, after which getpeername on the accepted connection fails; a refused connection afterwards is a violation. Right after a valid greeting a staller may send a correctly framed READY with a property given two or three times.",
 }
